@@ -104,10 +104,10 @@ def handleTimeout (fs : List (String × String)) : Option String := do
 open Mpire.Watch in
 def parseDEv' : String → Option DEv
   | "A" => some .signalAlive | "D" => some .signalDead | "X" => some .processExit | "R" => some .restart
-  | "K" => some .kill | "r" => some .read | "n" => some .rescan | _ => none
+  | "K" => some .kill | "r" => some .read | "n" => some .rescan | "S" => some .startReturns | _ => none
 
 open Mpire.Watch in
-/-- `dscan ev=<A,D,X,R,K,r,n …>` -/
+/-- `dscan ev=<S,A,D,X,R,K,r,n …>` -/
 def handleDScan (fs : List (String × String)) : Option String := do
   let es := (← get fs "ev")
   let evs ← if es == "-" || es == "" then some [] else (es.splitOn ",").mapM parseDEv'
